@@ -428,6 +428,42 @@ def blends(chk, prog):
            construct="affine Kalman update", line=fk.node.lineno)
 
 
+def aqua_equilibrium(chk, prog):
+    """EQUILIBRIUM for AQUA (interpretation, dt = 0 so that the predicted attitude is the given one): with the accelerometer (and magnetometer) equal to
+    the images of the vertical (and of a field in the world x-z plane with positive north component) under the attitude -- in whichever of the two
+    directions the code's own convention uses -- both delta quaternions are the identity and the filter returns the attitude unchanged"""
+    q = unit_syms("aq")
+    E = E_ref(q)
+    w = sym_vec("aw", 3)
+    bu = unit_vec("ab", 2)
+    P.declare_positive(bu[0])
+    e3 = np.array([P.ZERO, P.ZERO, P.ONE], dtype=object)
+    mw = np.array([bu[0], P.ZERO, bu[1]], dtype=object)
+    for meth, marg in (("updateIMU", False), ("updateMARG", True)):
+        f = prog.func(F + "aqua.py::AQUA." + meth)
+        chk.touch(f)
+
+        def law(f=f, marg=marg):
+            outs = []
+            for name, M in (("E(q)^T", E.T), ("E(q)", E)):
+                # a delta quaternion with scalar part exactly 1 is above any admissible threshold (< 1): the LERP arm of slerp_I
+                it = Interp(prog, oracle=lambda c, i: True if (c.op in (">", ">=") and hasattr(c.lhs, "const") and c.lhs.const() == 1) else None)
+                obj = it.make_obj(F + "aqua.py::AQUA", Dt=P.sym("Dt_i"), alpha=P.sym("alpha"), beta=P.sym("beta"), threshold=P.sym("thr"), adaptive=False)
+                args = [q.copy(), w, M @ e3] + ([M @ mw] if marg else [])
+                try:
+                    out = to_obj(it.run(f, args, {"dt": P.ZERO}, self_obj=obj))
+                    r = eq(out, q, "AQUA.%s at the truth [%s]" % (f.name, name))
+                except Exception as e:
+                    r = (None, "%s: %s" % (type(e).__name__, str(e)[:80]))
+                if r is True:
+                    return True
+                outs.append(r)
+            refuted = [r for r in outs if r[0] is False]
+            return refuted[0] if len(refuted) == len(outs) else outs[0]
+        chk.ob("EQUILIBRIUM", f.ref, "with consistent data (either convention) and dt = 0 AQUA returns the attitude unchanged: both delta quaternions are the identity", law,
+               module=f.module.rel, function=f.qname, construct="correction vanishes at the truth", line=f.node.lineno)
+
+
 def aqua_short_arc(chk, prog):
     """SHORT-ARC (interval analysis): AQUA corrects by interpolating between the identity and a delta quaternion (slerp_I).  The
     interpolation follows the short arc -- towards the measured direction -- only if the delta quaternion's scalar part is >= 0;
@@ -560,6 +596,7 @@ def run(chk, prog, tier):
     oleq(chk, prog)
     chk.require_count("EQUILIBRIUM", 8)
     chk.require_count("FEEDBACK.jacobian", 3)
+    aqua_equilibrium(chk, prog)
     aqua_short_arc(chk, prog)
     aqua_gain_input(chk, prog)
     canaries(chk, prog)
